@@ -64,7 +64,7 @@ def _work_inner(classes, tier, rank, nworkers, cfg_filter_name):
                 fs = [dict(f, config=cfg.key) for f in fs]
             else:
                 an = e1.Analysis(b)
-                fl = e1.generic(b, an) + e1.g5_local_stores(b, an) + e1.spec(b, an)
+                fl = e1.generic(b, an) + e1.g5_local_stores(b, an) + e1.g6_temp_unique(b, an) + e1.spec(b, an)
                 fs = [_pack(f) for f in fl]
                 notes = e1.g4_notes(b, an)
                 nex, nst = len(an.exits), len(an.starts)
